@@ -1,6 +1,6 @@
 SPECIFICATION Spec
 CONSTANTS
-  Symbols = {"mapm", "mapy", "add", "ll", "x", "y"}
+  Symbols = {"mapm", "mapy", "existsy", "add", "ll", "x", "y"}
   MaxOps = 3
   MaxSyms = 7
   EmitVectors = TRUE
